@@ -92,6 +92,7 @@ def gen_tasks(ctx, rng, n_cfg, n_beh, make_groups, maxcalls, faults, hyper_keys,
             if per_beh_redraw:
                 dd["groups"] = [family.redraw_numeric(rng, g) for g in dd["groups"]]
                 dd["seed"] = rng.randrange(1 << 30)
+            family.draw_scales(rng, dd)
             tasks.append((dd, beh, {"numeric": numeric}))
     return tasks
 
@@ -109,6 +110,7 @@ def exhaustive_tasks(ctx, rng, groups, depth, faults, hyper_keys, numeric=True, 
         if redraws:
             dd["groups"] = [family.redraw_numeric(rng, g) for g in dd["groups"]]
             dd["seed"] = rng.randrange(1 << 30)
+        family.draw_scales(rng, dd)
         tasks.append((dd, beh, {"numeric": numeric}))
     return tasks
 
